@@ -30,7 +30,16 @@ CATCHES = {
 FRAMES = ["do", "c:a", "c:one", "c:list", "c:null", "c:ERROR", "c:var",
           "c:raises", "c:map", "all", "fin", "c:a+fin", "all+fin",
           "c:b|c:a", "c:a|all", "c:onef+fin", "func", "funcargs", "for",
-          "while"]
+          "while", "for:set", "for:map", "for:str", "for:input"]
+# what the loop frames iterate (two iterations each); an input stream is a
+# sequence of lines
+ITERABLES = {
+    "for": ("list", [L(1), L(2)]),
+    "for:set": ("set", [L(2), L(1)]),
+    "for:map": ("map", [(L("k1"), L(1)), (L("k2"), L(2))]),
+    "for:str": L("xy"),
+    "for:input": ("raw", "IO->str_input('l1\\nl2')", ["l1", "l2"]),
+}
 INJ = {
     "err_a": ("error", L("a")), "err_b": ("error", L("b")),
     "err_1": ("error", L(1)), "err_1f": ("error", L(1.0)),
@@ -40,11 +49,13 @@ INJ = {
     "undef": V("undefined_thing"),
     "div0": ("bin", "/", L(1), L(0)),
     "callraise": ("call", V("boom"), []),
+    # a failure that starts as a host exception inside a built-in
+    "hostfail": ("rawerr", "('ab' * 1000000000000000000000)"),
     "return": ("return", L("R")),
     "break": ("break",), "continue": ("continue",),
 }
 INJ2 = ["err_a", "err_1", "return", "break", "err_list"]
-INJ1Q = ["err_a", "err_1f", "err_null", "undef", "callraise", "return",
+INJ1Q = ["err_a", "err_1f", "err_null", "undef", "callraise", "hostfail", "return",
          "break", "continue"]
 
 
@@ -98,9 +109,10 @@ class Builder:
                      True),
                     ("log", ("list", [L("called%d" % i),
                                       ("call", V("fn%d" % i), args)]))]
-        if f == "for":
-            return [("for", ["i%d" % i], None, ("list", [L(1), L(2)]),
-                     ("seq", body)), ("log", L("after-for%d" % i))]
+        if f in ITERABLES:
+            return [("for", ["i%d" % i], "keys" if f == "for:map" else None,
+                     ITERABLES[f], ("seq", [("log", V("i%d" % i))] + body)),
+                    ("log", L("after-for%d" % i))]
         if f == "while":
             n = "n%d" % i
             return [("def", n, L(0)),
@@ -128,7 +140,7 @@ class Builder:
         return [("block", body, catches, fin)]
 
     def program(self):
-        stmts = [("def", "cv", L("a")),
+        stmts = [("raw", "require IO", None), ("def", "cv", L("a")),
                  ("def", "boom", ("fn", [], ("error", L("a"))), True)]
         stmts += self.frame(0)
         stmts.append(("log", L("end")))
